@@ -72,6 +72,15 @@ def run(chk: lib.Check):
                 made_ = fragmenter.fragment_model(frag_tmp / "m", capella_, pathlib.Path(spec0["path"]).name, picks_)
                 stats["fragment_files_in_fragmented_state"] += len(made_)
                 model = capellambse.MelodyModel(str(frag_tmp / "m" / pathlib.Path(spec0["path"]).name))
+                # ... and the session goes on after a save() that rewrites the namespace declarations of the fragment roots
+                # (the fragmenter declares every namespace on them; save() reduces them to the ones in use)
+                roots_before_ = {k_: t_.root for k_, t_ in model._loader.trees.items()}
+                try:
+                    model.project.description = "c10: saved once"
+                    model.save()
+                    stats["fragment_roots_replaced_by_save"] += sum(1 for k_, t_ in model._loader.trees.items() if t_.root is not roots_before_[k_])
+                except Exception as ex:  # noqa: BLE001
+                    chk.violation(f"save-raises-on-fragmented:{type(ex).__name__}", f"save() of the fragmented scratch copy raised {ex!r}", {"model": spec0["name"], "picks": picks_})
             else:
                 model = corpus.load(spec0)
             uuidmod.uuid4 = lambda rng=rng: uuidmod.UUID(int=rng.getrandbits(128), version=4)
